@@ -871,7 +871,7 @@ class Fxp():
             if val.dtype.kind in 'iO' or (val.dtype.kind == 'u' and not raw):
                 # integer input: the scaled value has to fit in a signed 64 bits integer
                 # (unsigned raw values are left alone: a wrapped unsigned difference is re-interpreted below)
-                _int_overflow = max(abs(int(np.max(val))), abs(int(np.min(val)))) * max(conv_factor, 1) >= 2**(_n_word_max_ - 1)
+                _int_overflow = max(abs(int(np.max(val))), abs(int(np.min(val)))) * max(conv_factor, 1) >= 2**(_n_word_max_ - 1) or conv_factor >= 2**(_n_word_max_ - 1)
             else:
                 _int_overflow = False
             if np.max(val) >= 2**_n_word_max_ or np.min(val) < -2**_n_word_max_ or self.n_word >= _n_word_max_ or _int_overflow:
